@@ -77,6 +77,8 @@ type Frame struct {
 	rets    []retRec
 	root    bool
 	loopInfo map[*ssa.BasicBlock]*loopRec
+	back     map[[2]*ssa.BasicBlock]bool
+	order    []*ssa.BasicBlock
 }
 
 type retRec struct {
@@ -92,7 +94,7 @@ type loopRec struct {
 	// per execution
 	headState *State // state after havoc+assume (for decreases / before())
 	measure   string
-	inferred  []Clause
+	invs      []linv
 }
 
 type Exec struct {
@@ -128,7 +130,10 @@ type Exec struct {
 	entryNow  string
 	fpBitsMemo map[string]string
 	iters     map[ssa.Value]*ssa.Range
-	spec      int
+	speculating int
+	curLoop   *loopRec
+	inferN, inferQueries int
+	inferredNames []string
 }
 
 func NewExec(w *World, mode Mode) *Exec {
@@ -432,16 +437,14 @@ func (x *Exec) mergeStates(ins []*State) *State {
 
 type edgeKey [2]*ssa.BasicBlock
 
-func (x *Exec) runBody(fr *Frame, st *State) {
+func (x *Exec) prepareFrame(fr *Frame) {
 	fn := fr.fn
-	if len(fn.Blocks) == 0 {
-		x.unsupported("function without body %s", fn)
-		return
-	}
 	loops, back := findLoops(fn)
 	assignLoopOrdinals(fn, loops)
 	fr.loopInfo = loops
-	if fr.spec != nil {
+	fr.back = back
+	fr.order = rpo(fn, back)
+	if fr.spec != nil && fr.root {
 		used := map[int]bool{}
 		for _, l := range loops {
 			if ls, ok := fr.spec.Loops[l.ordinal]; ok {
@@ -455,15 +458,34 @@ func (x *Exec) runBody(fr *Frame, st *State) {
 			}
 		}
 	}
-	order := rpo(fn, back)
-	edgeStates := map[edgeKey]*State{}
+}
+
+func (x *Exec) runBody(fr *Frame, st *State) {
+	fn := fr.fn
+	if len(fn.Blocks) == 0 {
+		x.unsupported("function without body %s", fn)
+		return
+	}
 	prev := x.cur
 	x.cur = fr
 	defer func() { x.cur = prev }()
-	for _, b := range order {
+	x.prepareFrame(fr)
+	x.runRegion(fr, fn.Blocks[0], st, nil, nil)
+}
+
+// runRegion executes the blocks of region (nil = whole function) starting at
+// start in state st. If loopHead != nil the region is the body of that loop:
+// states arriving at its back edges are returned instead of being checked.
+func (x *Exec) runRegion(fr *Frame, start *ssa.BasicBlock, st *State, region map[*ssa.BasicBlock]bool, loopHead *loopRec) (backStates []*State) {
+	loops, back := fr.loopInfo, fr.back
+	edgeStates := map[edgeKey]*State{}
+	for _, b := range fr.order {
+		if region != nil && !region[b] {
+			continue
+		}
 		var ins []*State
 		var predOrder []*ssa.BasicBlock
-		if b == fn.Blocks[0] {
+		if b == start {
 			ins = append(ins, st)
 		} else {
 			for _, p := range b.Preds {
@@ -476,7 +498,6 @@ func (x *Exec) runBody(fr *Frame, st *State) {
 				}
 			}
 		}
-		// phi support: remember per-pred pcs before merging
 		predPC := map[*ssa.BasicBlock]string{}
 		for i, p := range predOrder {
 			predPC[p] = ins[i].pc
@@ -485,7 +506,7 @@ func (x *Exec) runBody(fr *Frame, st *State) {
 		if cur == nil {
 			continue
 		}
-		if l, ok := loops[b]; ok {
+		if l, ok := loops[b]; ok && !(loopHead != nil && l == loopHead) {
 			cur = x.enterLoop(fr, l, cur)
 		}
 		x.curState = cur
@@ -499,7 +520,20 @@ func (x *Exec) runBody(fr *Frame, st *State) {
 		if cur.dead {
 			continue
 		}
-		// terminator
+		send := func(to *ssa.BasicBlock, s *State) {
+			if back[edgeKey{b, to}] {
+				if loopHead != nil && to == loopHead.head {
+					backStates = append(backStates, s)
+					return
+				}
+				x.closeLoop(fr, loops[to], s)
+				return
+			}
+			if region != nil && !region[to] {
+				return // leaves the region
+			}
+			edgeStates[edgeKey{b, to}] = s
+		}
 		last := b.Instrs[len(b.Instrs)-1]
 		switch t := last.(type) {
 		case *ssa.If:
@@ -508,20 +542,13 @@ func (x *Exec) runBody(fr *Frame, st *State) {
 			x.assumeIn(s1, c)
 			s2 := cur
 			x.assumeIn(s2, not(c))
-			x.sendEdge(fr, loops, back, edgeStates, b, b.Succs[0], s1)
-			x.sendEdge(fr, loops, back, edgeStates, b, b.Succs[1], s2)
+			send(b.Succs[0], s1)
+			send(b.Succs[1], s2)
 		case *ssa.Jump:
-			x.sendEdge(fr, loops, back, edgeStates, b, b.Succs[0], cur)
+			send(b.Succs[0], cur)
 		}
 	}
-}
-
-func (x *Exec) sendEdge(fr *Frame, loops map[*ssa.BasicBlock]*loopRec, back map[[2]*ssa.BasicBlock]bool, es map[edgeKey]*State, from, to *ssa.BasicBlock, st *State) {
-	if back[edgeKey{from, to}] {
-		x.closeLoop(fr, loops[to], st)
-		return
-	}
-	es[edgeKey{from, to}] = st
+	return backStates
 }
 
 func (x *Exec) bindingFailure(msg string) {
@@ -534,6 +561,13 @@ func (x *Exec) bindingFailure(msg string) {
 
 // ---------- loops ----------
 
+// linv is one loop invariant: from the contract, automatic (range index) or inferred.
+type linv struct {
+	name string
+	kind string // "" user, "auto", "inferred"
+	eval func(st *State) (string, error)
+}
+
 func (x *Exec) loopModset(fr *Frame, l *loopRec) *ModSet {
 	ms := NewModSet()
 	for b := range l.blocks {
@@ -544,51 +578,82 @@ func (x *Exec) loopModset(fr *Frame, l *loopRec) *ModSet {
 	return ms
 }
 
-func (x *Exec) enterLoop(fr *Frame, l *loopRec, st *State) *State {
-	spec := l.spec
-	x.curState = st
-	name := fmt.Sprintf("loop%d", l.ordinal)
-	var invs []Clause
-	if spec != nil {
-		invs = spec.Invariants
-	}
-	// entry obligations
-	for _, c := range invs {
-		t, err := x.evalBool(fr, st, c.E)
-		if err != nil {
-			x.bindingFailure(fmt.Sprintf("%s invariant %q: %v", name, c.Src, err))
-			continue
-		}
-		x.obligeIn(st, name+".entry", c.Name(), t, "")
-	}
-	ms := x.loopModset(fr, l)
-	// candidate inference (Houdini) for index bounds
-	var cands []Clause
-	if (spec != nil && spec.Infer) || (fr.spec != nil && fr.spec.InferAll) || x.safety {
-		cands = x.inferCandidates(fr, l, st, ms)
-	}
-	ns := st.clone()
-	x.havoc(fr, ns, ms, "lp")
-	for _, c := range invs {
-		t, err := x.evalBool(fr, ns, c.E)
-		if err == nil {
-			x.assumeIn(ns, t)
-		}
-	}
-	l.inferred = nil
-	if len(cands) > 0 {
-		kept := x.houdini(fr, l, st, ns, cands)
-		l.inferred = kept
-		for _, c := range kept {
-			t, err := x.evalBool(fr, ns, c.E)
-			if err == nil {
-				x.assumeIn(ns, t)
+// rangeIndexAlloc finds the hidden index of a lowered range-over-slice loop.
+func rangeIndexAlloc(l *loopRec) *ssa.Alloc {
+	for _, in := range l.head.Instrs {
+		if s, ok := in.(*ssa.Store); ok {
+			if a, ok := s.Addr.(*ssa.Alloc); ok && a.Comment == "rangeindex" {
+				return a
 			}
 		}
 	}
+	return nil
+}
+
+func (x *Exec) userInvariants(fr *Frame, l *loopRec) []linv {
+	var out []linv
+	if l.spec != nil {
+		for _, c := range l.spec.Invariants {
+			c := c
+			out = append(out, linv{name: c.Name(), eval: func(st *State) (string, error) {
+				x.curLoop = l
+				defer func() { x.curLoop = nil }()
+				return x.evalBool(fr, st, c.E)
+			}})
+		}
+	}
+	if ra := rangeIndexAlloc(l); ra != nil {
+		if a, ok := fr.addrs[ra]; ok && a.K == AKCell {
+			out = append(out, linv{name: "rangeindex >= -1", kind: "auto", eval: func(st *State) (string, error) {
+				v, ok := st.cells[a.Cell]
+				if !ok {
+					return "true", nil
+				}
+				return x.cmp(">=", v.One(), x.numLit(bigInt(-1), v.S[0]), v.S[0]), nil
+			}})
+		}
+	}
+	return out
+}
+
+func (x *Exec) enterLoop(fr *Frame, l *loopRec, st *State) *State {
+	x.curState = st
+	name := fmt.Sprintf("loop%d", l.ordinal)
+	invs := x.userInvariants(fr, l)
+	for _, c := range invs {
+		t, err := c.eval(st)
+		if err != nil {
+			x.bindingFailure(fmt.Sprintf("%s invariant %q: %v", name, c.name, err))
+			continue
+		}
+		x.obligeIn(st, name+".entry", c.name, t, c.kind)
+	}
+	ms := x.loopModset(fr, l)
+	if x.wantInfer(fr, l) && x.speculating == 0 {
+		invs = append(invs, x.houdini(fr, l, st, ms, invs)...)
+	} else if x.speculating > 0 {
+		// nested loop inside a speculative run: reuse what the real run will infer is not
+		// possible yet; use user+auto invariants only (sound: fewer assumptions)
+	}
+	l.invs = invs
+	ns := st.clone()
+	x.havoc(fr, ns, ms, "lp")
+	for _, c := range invs {
+		if t, err := c.eval(ns); err == nil {
+			x.assumeIn(ns, t)
+		}
+	}
+	if x.speculating == 0 {
+		x.obligeIn(ns, "vacuity", name+" invariants satisfiable", "", "")
+		x.obls[len(x.obls)-1].Kind = "vacuity"
+		x.obls[len(x.obls)-1].Goal = ""
+	}
 	l.headState = ns.clone()
-	if spec != nil && spec.Decreases != nil {
-		v, err := x.evalExpr(fr, ns, spec.Decreases.E)
+	l.measure = ""
+	if l.spec != nil && l.spec.Decreases != nil {
+		x.curLoop = l
+		v, err := x.evalExpr(fr, ns, l.spec.Decreases.E)
+		x.curLoop = nil
 		if err != nil {
 			x.bindingFailure(fmt.Sprintf("%s decreases: %v", name, err))
 		} else {
@@ -603,24 +668,26 @@ func (x *Exec) closeLoop(fr *Frame, l *loopRec, st *State) {
 		return
 	}
 	name := fmt.Sprintf("loop%d", l.ordinal)
-	if l.spec != nil {
-		for _, c := range l.spec.Invariants {
-			t, err := x.evalBool(fr, st, c.E)
-			if err != nil {
-				continue
-			}
-			x.obligeIn(st, name+".preserve", c.Name(), t, "")
+	for _, c := range l.invs {
+		if c.kind == "inferred" {
+			continue // established by the fixpoint computation in houdini()
 		}
-		if l.spec.Decreases != nil && l.measure != "" {
-			v, err := x.evalExpr(fr, st, l.spec.Decreases.E)
-			if err == nil {
-				s := v.S[0]
-				z := x.zeroLeaf(s)
-				x.obligeIn(st, name+".decreases", l.spec.Decreases.Src, and(x.cmp("<=", z, l.measure, s), x.cmp("<", v.One(), l.measure, s)), "")
-			}
+		t, err := c.eval(st)
+		if err != nil {
+			continue
+		}
+		x.obligeIn(st, name+".preserve", c.name, t, c.kind)
+	}
+	if l.spec != nil && l.spec.Decreases != nil && l.measure != "" {
+		x.curLoop = l
+		v, err := x.evalExpr(fr, st, l.spec.Decreases.E)
+		x.curLoop = nil
+		if err == nil {
+			s := v.S[0]
+			z := x.zeroLeaf(s)
+			x.obligeIn(st, name+".decreases", l.spec.Decreases.Src, and(x.cmp("<=", z, l.measure, s), x.cmp("<", v.One(), l.measure, s)), "")
 		}
 	}
-	// inferred invariants were established by houdini using the same back-edge states
 }
 
 // ---------- instructions ----------
@@ -1548,6 +1615,10 @@ func (x *Exec) execReturn(fr *Frame, st *State, i *ssa.Return) {
 	}
 	if sig.Results().Len() == 1 {
 		out.GT = sig.Results().At(0).Type()
+	}
+	if x.speculating > 0 {
+		st.dead = true
+		return
 	}
 	if fr.root {
 		x.checkEnsures(fr, st, out)
